@@ -61,6 +61,10 @@ func build(c wireCase) (enc marshaler, decode func([]byte) (int, error), same fu
 			if d.GetString() != string(c.Bytes) {
 				return fmt.Sprintf("got %q want %q", d.GetString(), string(c.Bytes))
 			}
+			// the exported Length and BufferFormat fields are field values like the content
+			if d.BufferFormat != v.BufferFormat || int(d.Length) != len(c.Bytes) {
+				return fmt.Sprintf("got format %#x length %d, want format %#x length %d", d.BufferFormat, d.Length, v.BufferFormat, len(c.Bytes))
+			}
 			return ""
 		}, func() ([]byte, error) { return d.Marshal() }, nil
 	case "SMB_DATE":
@@ -130,13 +134,16 @@ func build(c wireCase) (enc marshaler, decode func([]byte) (int, error), same fu
 		copy(v.ResumeKey.ClientState[:], b[17:21])
 		nameLen := int(n(5)) % 13
 		name := make([]byte, nameLen)
+		// the name may hold spaces anywhere ("MY FILE.TXT"); only trailing spaces are indistinguishable
+		// from the padding of the 8.3 field, which is why names are compared modulo trailing spaces
 		for i := range name {
 			ch := b[21+i]
-			if ch == 0 || ch == ' ' {
+			if ch == 0 {
 				ch = 'A' + byte(i)
 			}
 			name[i] = ch
 		}
+		trimmed := string(bytes.TrimRight(name, " "))
 		v.FileAttributes = uint8(n(0))
 		v.LastWriteTime = types.SMB_TIME{DwLowDateTime: uint32(n(1)), DwHighDateTime: uint32(n(2))}
 		v.LastWriteDate = types.SMB_DATE{Year: 1980 + uint16(n(3)%128), Month: uint8(n(3) >> 8 % 16), Day: uint8(n(3) >> 16 % 32)}
@@ -150,8 +157,8 @@ func build(c wireCase) (enc marshaler, decode func([]byte) (int, error), same fu
 			if d.FileAttributes != v.FileAttributes || d.LastWriteTime != v.LastWriteTime || d.LastWriteDate != v.LastWriteDate || d.FileSize != v.FileSize {
 				return fmt.Sprintf("fixed fields differ: got %+v", *d)
 			}
-			if bytes.TrimRight([]byte(d.FileName.GetString()), " ") == nil && nameLen != 0 || string(bytes.TrimRight([]byte(d.FileName.GetString()), " ")) != string(name) {
-				return fmt.Sprintf("file name %q want %q (modulo space padding)", d.FileName.GetString(), string(name))
+			if string(bytes.TrimRight([]byte(d.FileName.GetString()), " ")) != trimmed {
+				return fmt.Sprintf("file name %q want %q (modulo trailing space padding)", d.FileName.GetString(), string(name))
 			}
 			return ""
 		}, func() ([]byte, error) { return d.Marshal() }, nil
@@ -313,6 +320,13 @@ func genWire(t *rapid.T, typ string) wireCase {
 		c.Bytes = rapid.SliceOfN(rapid.Byte(), 21, 21).Draw(t, "bytes")
 	case "SMB_DIRECTORY_INFORMATION":
 		c.Bytes = rapid.SliceOfN(rapid.Byte(), 33, 33).Draw(t, "bytes")
+		// file-name bytes: half of the cases draw them from a file-name-like alphabet in which the
+		// space is frequent, so that names with interior, leading and trailing spaces all occur
+		if rapid.Bool().Draw(t, "nameAlphabet") {
+			for i := 21; i < 33; i++ {
+				c.Bytes[i] = rapid.SampledFrom([]byte{' ', ' ', ' ', 'A', 'z', '0', '.', '~', '_', 0xE9}).Draw(t, "nameChar")
+			}
+		}
 		c.Nums = []uint64{uint64(rapid.Byte().Draw(t, "attr")), uint64(rapid.Uint32().Draw(t, "tlo")), uint64(rapid.Uint32().Draw(t, "thi")), uint64(rapid.Uint32().Draw(t, "date")), uint64(rapid.Uint32().Draw(t, "size")), uint64(rapid.IntRange(0, 12).Draw(t, "nameLen"))}
 	case "SMB_DATE":
 		c.Nums = []uint64{uint64(rapid.IntRange(1980, 2107).Draw(t, "y")), uint64(rapid.IntRange(0, 15).Draw(t, "m")), uint64(rapid.IntRange(0, 31).Draw(t, "d"))}
